@@ -57,7 +57,8 @@ struct C16;
 const KEYS: [(&str, &str); 3] = [("c", "1"), ("c", "2"), ("d", "1")];
 const APPROVABLE: usize = 2; // the third key is never approved
 
-fn src_str(i: u8) -> &'static str { if i == 0 { "source-a" } else { "source-b" } }
+/// the two source addresses differ only in letter case
+fn src_str(i: u8) -> &'static str { if i == 0 { "0xSourceAddr" } else { "0xsourceaddr" } }
 fn payload_of(i: u8) -> Vec<u8> { if i == 0 { b"payload one".to_vec() } else { b"payload 2".to_vec() } }
 
 impl Scenario for C16 {
